@@ -21,6 +21,11 @@ theorem map_range_sites_accounted :
        ("tabular.generateLogicalLinksExpressionForGivenComponentValue", "linksForElement", "nd", ""),
        ("tabular.generateStatementMatrix", "componentFrequency", "k", "v")] := by decide
 
+/-- the conversion packages start no goroutine, use no `select`, no random numbers, no clock and
+    no synchronisation primitives: apart from map iteration (above) the code is sequential and
+    closed -/
+theorem no_other_sources_of_variation : Gen.nondeterminismSources = [] := by decide
+
 /-- the model's conversion is a function of statement, id and options -/
 theorem model_deterministic (o : Tab.Opts) (root : PNode) (id : Str) :
     ∀ n : Nat, (List.replicate n (Tab.exportAll o root id)).all (· = Tab.exportAll o root id) = true := by
